@@ -5,6 +5,7 @@ P="$1"; PROP="$2"; RUNS="${3:-}"
 cd /repo || exit 3
 git apply "$P" || { echo "patch does not apply"; exit 3; }
 cd /verif
+VERIF_EVIDENCE=/var/tmp/verif-mut-evidence; export VERIF_EVIDENCE; mkdir -p $VERIF_EVIDENCE
 if [ -n "$RUNS" ]; then ./check run "$PROP" --runs "$RUNS"; else ./check run "$PROP"; fi
 rc=$?
 git -C /repo checkout -- . 
